@@ -210,8 +210,23 @@ def oracleStep (o : OSt) (toks : List String) (ans : String) : OSt :=
     | none => bad
   | _ => { o with v := o.v.and (Verdict.fail "bad-line") }
 
+/-- One case is a batch of independent ops and `Verdict.and` keeps the *first* failure's reason.
+    So that an op failing with the known upper-case signature does not hide a different failure
+    later in the same batch, the ops are judged in two passes: first every op that is not an
+    upper-case spelling accepted by `Decode`, then those. -/
+def isUpperAccepted (toks : List String) (ans : String) : Bool :=
+  match toks with
+  | [op, s] =>
+    isDecOp op && (match bytesOfHex s with
+      | some b => b.map Spec.C31.lowerChar != b && !(ans.startsWith "len" || ans.startsWith "inv")
+      | none => false)
+  | _ => false
+
 def oracle (obs : List (List String × String)) : Verdict :=
-  (flushHist (obs.foldl (fun o (toks, ans) => oracleStep o toks ans) {})).v
+  let first := obs.filter fun (t, a) => !isUpperAccepted t a
+  let second := obs.filter fun (t, a) => isUpperAccepted t a
+  let o := flushHist (first.foldl (fun o (toks, ans) => oracleStep o toks ans) {})
+  (second.foldl (fun o (toks, ans) => oracleStep o toks ans) o).v
 
 def driver : Driver St := { init := {}, step := step, oracle := oracle }
 
